@@ -669,6 +669,13 @@ MUTANTS = [
     }""",
         """    this->~start_reduce();
     (void)root;""")]),
+    dict(name='c03-graph-task-destructor-does-not-release', prop='C03', clause='D13', edits=[('include/oneapi/tbb/detail/_flow_graph_impl.h',
+        """    ~graph_task() {
+        if (my_reference_vertex) {
+            my_reference_vertex->release();
+        }
+    }""",
+        """    ~graph_task() {}""")]),
     dict(name='c01-seed3-run-and-wait-handle-epilogue-on-exception-only', prop='C01', clause='D9', edits=[('include/oneapi/tbb/task_group.h',
         """            execute_and_wait(*acs::release(h), context(), m_wait_vertex.get_context(), context());
         }).on_completion([&] {""",
@@ -1531,6 +1538,16 @@ BENIGN = [
             n->m_ref_count.fetch_add(1);
             throw;
         }""")]),
+    dict(name='c03-b-graph-task-destructor-releases-through-a-local', prop='C03', edits=[('include/oneapi/tbb/detail/_flow_graph_impl.h',
+        """        if (my_reference_vertex) {
+            my_reference_vertex->release();
+        }
+    }""",
+        """        d1::wait_tree_vertex_interface* held = my_reference_vertex;
+        if (held != nullptr) {
+            held->release();
+        }
+    }""")]),
     dict(name='c01-b-group-wait-epilogue-in-a-named-lambda', prop='C01', edits=[('include/oneapi/tbb/task_group.h',
         """        try_call([&] {
             d1::wait(m_wait_vertex.get_context(), context());
